@@ -109,6 +109,19 @@ CONFIGS = [
     ("float", 0.0, 100.0, 0.1, False),
 ]
 
+# integer formats with a fractional declared step, float formats with a whole step off a non-dyadic minimum (legal metadata, seen on real accessories)
+CONFIGS += [
+    ("uint32", 0, U32, 0.5, True),
+    ("int", -I31, I31 - 1, 0.1, True),
+    ("uint64", 0, U64, 0.5, False),
+    ("uint8", 0, 100, 0.5, False),
+    ("uint16", 0, 65535, 0.25, False),
+    ("int", -100, 100, 2.5, True),
+    ("float", 0.1, 100.1, 1, True),
+    ("float", 0.3, None, 1, False),
+    ("float", -0.7, 50.3, 2, False),
+]
+
 GARBAGE_CONFIGS = [(None, None, None), (0, 100, 1), (None, None, 1), (0, 100, None)]
 
 # unconvertible inputs: (kind, spelling).  kind "py" spellings are looked up in _PY.
@@ -168,6 +181,14 @@ def _char(fmt, lo, hi, st):
         ch = serv.add_char(CHAR_TYPE, format=fmt, min_value=lo, max_value=hi, min_step=st, perms=["pr", "pw"], iid=99)
         if (ch.format, ch.minValue, ch.maxValue, ch.minStep) != (fmt, lo, hi, st):
             raise core.HarnessError(f"characteristic not configured as requested: {key}")
+        # the same characteristic as the BLE path builds it: created bare, metadata assigned afterwards (and once more, after having been
+        # something else) -- what a write is checked against is what the object declares NOW
+        serv2 = Accessory(8).add_service(SERV_TYPE)
+        late = serv2.add_char(CHAR_TYPE, iid=100, perms=["pr", "pw"])
+        late.format, late.minValue, late.maxValue, late.minStep = fmt, lo, hi, st
+        changed = Accessory(9).add_service(SERV_TYPE).add_char(CHAR_TYPE, format="float", min_value=-3, max_value=3, min_step=3, perms=["pr", "pw"], iid=101)
+        changed.format, changed.minValue, changed.maxValue, changed.minStep = fmt, lo, hi, st
+        ch._vt_variants = (("metadata-assigned-after-construction", late), ("metadata-changed-after-construction", changed))
         _CHARS[key] = (serv, ch)
     return _CHARS[key]
 
@@ -210,6 +231,10 @@ def _run_seams(fmt, lo, hi, st, kind, spelling):
     out = []
     if not _same(direct, built):
         out.append(("seams-disagree", {"check_convert_value": repr(direct), "build_update": repr(built)}))
+    for how, other in ch._vt_variants:
+        r = _call(lambda other=other: check_convert_value(_materialise(kind, spelling), other))
+        if not _same(direct, r):
+            out.append((f"result-depends-on-how-the-characteristic-got-its-metadata:{how}", {"declared_at_construction": repr(direct), "declared_later": repr(r)}))
     return direct, out
 
 
